@@ -14,7 +14,7 @@ from aomon.probes import ScriptedGenerator, RecordingGenerator, ProbeNotApplicab
 
 LEVEL = "exploration"
 TECHNIQUE = "state probing of the live object through add_row() with a scripted Generator (effective A, B observed), second-order identities vs float64 reference covariance; trace conformance with a recording Generator; numba bounds-check / no-JIT differential"
-LEVEL_TEXT = ("For both variants, sizes 5..33 (quick) / ..70 (thorough) incl. sizes that are not 2^n+1, 1-5 stencil columns / length "
+LEVEL_TEXT = ("For both variants, sizes 1..33 (quick) / ..70 (thorough) incl. sizes that are not 2^n+1, 1-5 stencil columns / length "
               "factors, pixel scale / L0 from 5e-6 to 0.3, r0 from 0.05 m to 3e7 pixels, integer-typed pixel scales and the same geometry in other length units, the effective maps A and B are *observed* (every pixel of the "
               "working screen as a unit impulse, every innovation as a unit draw) and must satisfy A Czz = Cxz and A Czz A^T + B B^T = Cxx "
               "for the theoretical covariance at the true pixel separations, in a structure-function metric that exposes 1 % geometry "
@@ -319,4 +319,7 @@ def run(ctx, spec):
             ips = [3, np.int64(5), 7, np.int32(2)][int(rng.integers(0, 4))]
             check_screen(ctx, aotools, variant, min(nx, 17), ips, r0, float(ips) * 10 ** rng.uniform(1.3, 3), extra, rng, "int_pixel_scale")
             check_natural(ctx, aotools, variant, min(nx, 20), ps, r0, L0, extra, rng)
+            # the smallest screens (1 .. 4 pixels; the Fried variant needs at least 2): same law
+            tiny = int(rng.integers(1, 5)) if variant == "vk" else int(rng.integers(2, 5))
+            check_screen(ctx, aotools, variant, tiny, ps, r0, L0, int(rng.integers(1, 4)) if variant == "vk" else 1, rng, "tiny_screen")
             check_innovations_fresh(ctx, aotools, variant, min(nx, 17), ps, r0, L0, extra, rng)
